@@ -635,6 +635,10 @@ def source_tags(net):
             osh = net.tensors[o.outputs[0]].shape
             if len(osh) == 4 and osh[0] > 1:
                 tags.add("fc-keep-num-dims-rank4-batch>1")
+        if o.kind == "LEAKY_RELU" and net.tensors[o.inputs[0]].dtype == "int16" and float(opts.get("Alpha", 0.0)) < 0:
+            # lowered to MIN, int32 MUL by the (negative) quantised multiplier, RELU, ADD: the MUL is handed to the register
+            # generator with a negative OFM scale (C06 finding int16-lrelu-negative-alpha-negative-ofm-scale, repair C16-20)
+            tags.add("int16-leaky-relu-negative-alpha")
         if o.kind == "STRIDED_SLICE" and opts.get("NewAxisMask", 0):
             rank_in = len(net.tensors[o.inputs[0]].shape)
             if opts["NewAxisMask"] & ((1 << rank_in) - 1):
